@@ -1333,6 +1333,11 @@ func (class *typeParserClassNode) wellFormed() bool {
 	if len(class.params) < need {
 		return false
 	}
+	if strings.HasPrefix(class.name, COMPOSITE_TYPE) && len(class.params) == 1 &&
+		strings.HasPrefix(class.params[0].class.name, COLLECTION_TYPE) {
+		// the collections parameter alone: a composite without any component
+		return false
+	}
 	for i := range class.params {
 		if strings.HasPrefix(class.name, COLLECTION_TYPE) && class.params[i].name == nil {
 			return false
